@@ -1699,8 +1699,12 @@ func (p *partition) truncateUncommitted() error {
 	)
 	for i := 0; i < 3; i++ {
 		lastOffset, err = p.sendLeaderOffsetRequest(leaderEpoch)
-		// Retry timeouts.
-		if err == nats.ErrTimeout {
+		// Retry timeouts. Also retry when nobody is subscribed to the
+		// leader's offset inbox yet: followers usually learn about a leader
+		// change at the same moment the new leader does, so its subscription
+		// may not be in place for the first request. Giving up immediately
+		// would needlessly take the lossy HW truncation path below.
+		if err == nats.ErrTimeout || err == nats.ErrNoResponders {
 			time.Sleep(50 * time.Millisecond)
 			continue
 		}
